@@ -93,6 +93,11 @@ func (s *sampler) walk(e *Expr, depth int) {
 	}
 	switch e.K {
 	case KLit:
+		if !utf8.Valid(e.Val) {
+			// (a literal whose value is not UTF-8: its bytes as they are)
+			s.out = append(s.out, e.Val...)
+			return
+		}
 		for _, r := range string(e.Val) {
 			if e.IC && s.intn(0, 2, "litflip") == 0 {
 				r = flipCase(r)
